@@ -4,12 +4,13 @@ from .tys import *   # noqa
 
 
 class ClassDecl(object):
-    def __init__(self, name, qual=None, fields=None, bases=(), doc=''):
+    def __init__(self, name, qual=None, fields=None, bases=(), doc='', hasattr_fields=None):
         self.name = name
         self.qual = qual            # 'circus.watcher:Watcher' or None for a spec-only class
         self.fields = dict(fields or {})
         self.bases = tuple(bases)
         self.doc = doc
+        self.hasattr_fields = dict(hasattr_fields or {})   # attr -> BOOL field deciding hasattr()
 
 
 class Loop(object):
@@ -87,6 +88,7 @@ class Spec(object):
         self.assumptions = {}      # id -> text
         self.lemmas = {}           # name -> Lemma
         self.axioms = {}           # group name -> list of spec expressions (ground facts)
+        self.handlers = {}         # extern qual -> python handler(engine, st, args, kw, node)
 
     def Class(self, name, **kw):
         c = ClassDecl(name, **kw)
